@@ -7,17 +7,17 @@ NOTE_COMMON = ("Trusted: Coq 8.16.1 kernel (vm_compute used; no native_compute);
                "correspondence run of this check, the generated definitions by the fail-closed translator lib/py2coq and its self-check; "
                "CPython/NumPy semantics of the modelled fragment. Axioms per theorem are listed in the evidence file (Print Assumptions).")
 
-CHECKS = {
-    "C07": dict(
-        text=("Machine-checked proof (Coq) over an executable model of the mode flags and of the no_grad/retain_grads objects: for every "
-              "state, object and well-bracketed body (any depth, re-entrance, exits by exception) the modes after Exit equal the modes "
-              "before the matching Enter and no saved state leaks (induction on the bracket structure); flag resolution at tensor creation "
-              "and in the requires_grad setter as total functions with iff-theorems. The model is run against the real objects on every "
-              "event sequence up to a bound and on random real `with` programs, exactly."),
-        design="7/C07",
-        technique="Coq proof by induction over well-bracketed event sequences + exact model/implementation correspondence (vm_compute)",
-    ),
-}
+def load_checks():
+    res = {}
+    d = os.path.join(ROOT, "checks")
+    for f in sorted(os.listdir(d)):
+        if f.endswith(".meta.json"):
+            m = json.load(open(os.path.join(d, f)))
+            res[m["property_id"]] = m
+    return res
+
+
+CHECKS = load_checks()
 
 NOT_YET = "machinery for this property is not built yet at this commit (work in progress, see DESIGN.md section 11); not claimed"
 
